@@ -6,6 +6,7 @@ import (
 	"fmt"
 	"log/slog"
 	"path/filepath"
+	"strings"
 	"sync"
 
 	"reduction.dev/reduction/connectors"
@@ -308,17 +309,25 @@ func (s *Store) LoadCheckpoint() error {
 			return fmt.Errorf("restore checkpoints from savepoint: %v", err)
 		}
 	} else {
-		// For a new job, check the file store for first (latest) snapshot file.
-		// Checkpoint IDs are encoded so that files will be in reverse chronological
-		// order.
+		// For a new job, check the file store for the snapshot file with the
+		// highest checkpoint ID. Several files can exist when a crash interrupted
+		// the cleanup, and the listing order of the encoded IDs is not the ID order.
 		var latestCheckpointFile string
+		var latestID uint64
 		for filePath, err := range s.fileStore.List() {
 			if err != nil {
 				return err
 			}
-			if filepath.Ext(filePath) == ".snapshot" {
-				latestCheckpointFile = filePath
-				break
+			if filepath.Ext(filePath) != ".snapshot" {
+				continue
+			}
+			name := strings.TrimSuffix(filepath.Base(filePath), ".snapshot")
+			id, ok := idFromPathSegment(strings.TrimPrefix(name, "job-"))
+			if !ok {
+				continue
+			}
+			if latestCheckpointFile == "" || id > latestID {
+				latestCheckpointFile, latestID = filePath, id
 			}
 		}
 
